@@ -1,27 +1,31 @@
 import Percival.Driver.Loop
 import Percival.Spec.Aes
+import Percival.Spec.Ctr
 /-! `pmodel aesfailmon`: monitor for C03's "allocation failure during the AES dispatch self-test" op: the first key
     expansion may fail (documented NULL), but if it succeeds both keys must encrypt as FIPS-197 says. -/
 namespace Percival.Driver.Aesfailmon
 open Percival.Driver Percival.Spec
 
-def expect (k1 blk k2 : String) : Option (String × String) := do
+def expect (k1 blk k2 : String) : Option (String × String × String) := do
   let a ← bytesOfHex k1; let b ← bytesOfHex blk; let c ← bytesOfHex k2
-  pure (hexOfBytes (Aes.encryptBlock a b), hexOfBytes (Aes.encryptBlock c b))
+  -- the harness streams 48 bytes `blk[j % 16] + j` under nonce 7 with the first key
+  let sin := (List.range 48).map fun j => (b.getD (j % 16) 0) + UInt8.ofNat j
+  pure (hexOfBytes (Aes.encryptBlock a b), hexOfBytes (Aes.encryptBlock c b),
+        hexOfBytes (Ctr.stream (Aes.encryptBlock a) 7 sin))
 
 def mon (_ : Unit) (op ans : List String) : Unit × String :=
   match op, ans with
-  | ["aesfail", _, _, _, _], ["fail"] => ((), "ok")
-  | ["aesfail", _, k1, blk, k2], ["ct", c1, c2] =>
+  | "aesfail" :: _, ["fail"] => ((), "ok")
+  | "aesfail" :: _ :: k1 :: blk :: k2 :: _, ["ct", c1, c2, c3] =>
       match expect k1 blk k2 with
-      | some (e1, e2) => ((), if c1 = e1 ∧ c2 = e2 then "ok" else s!"bad ciphertext differs from FIPS-197 after a failed allocation in the dispatch self-test: want {e1} {e2}")
+      | some (e1, e2, e3) => ((), if c1 = e1 ∧ c2 = e2 ∧ c3 = e3 then "ok" else s!"bad block/stream output differs from FIPS-197 / SP 800-38A (dispatch self-test failure or unusual block alignment): want {e1} {e2} {e3}")
       | none => ((), "bad op")
   | _, _ => ((), "bad unexpected answer")
 
 def model (_ : Unit) (toks : List String) : Unit × String :=
   match toks with
-  | ["aesfail", _, k1, blk, k2] => match expect k1 blk k2 with
-      | some (e1, e2) => ((), s!"ct {e1} {e2}")
+  | "aesfail" :: _ :: k1 :: blk :: k2 :: _ => match expect k1 blk k2 with
+      | some (e1, e2, e3) => ((), s!"ct {e1} {e2} {e3}")
       | none => ((), "bad-op")
   | _ => ((), "bad-op")
 
